@@ -1,6 +1,7 @@
 import OhkamiModel.Drv.C02
 import OhkamiModel.Drv.C03
 import OhkamiModel.Drv.C09
+import OhkamiModel.Drv.C12
 import OhkamiModel.Drv.C13
 import OhkamiModel.Drv.C20
 /-! The one line-protocol driver: `driver <prop>` reads one JSON case per line on stdin, writes one JSON answer per line. -/
@@ -20,6 +21,7 @@ def main (args : List String) : IO UInt32 := do
   | ["C02"] => loop stdin DrvC02.runCase; return 0
   | ["C03"] => loop stdin DrvC03.runCase; return 0
   | ["C09"] => loop stdin DrvC09.runCase; return 0
+  | ["C12"] => loop stdin DrvC12.runCase; return 0
   | ["C13"] => loop stdin DrvC13.runCase; return 0
   | ["C20"] => loop stdin DrvC20.runCase; return 0
   | _ => IO.eprintln "usage: driver <property id>"; return 2
